@@ -713,8 +713,51 @@ def run_c25(tier):
             ops.append({"op": "destroy", "key": c.keyV})
         cases.append({"id": "g%d" % n, "ops": ops})
         meta.append((pi, c, beh))
+    # ---- lagging replica: the master flushes several groups before the replica takes the first one from the queue ----
+    lag_meta = []
+    for ln in range(3 if quick else 12):
+        c = ReplConc(rng, 900 + ln, 1, False)
+        tfsec = TFSEC[c.tfF] if hasattr(c, "tfF") else 60
+        base = year_start(2021) + 40 * DAY + 7 * 3600
+        ngr = rng.choice([3, 5, 6])
+        ops, want = [], []
+        for k in range(ngr):
+            ep = base + (k + 1) * tfsec * rng.choice([1, 2, 3]) + 97 * tfsec * k
+            val = 100 + k
+            ops.append({"op": "write", "buckets": [{"key": c.keyF, "cols": [{"name": "Epoch", "type": "i8", "vals": [ep - ep % tfsec]},
+                                                                            {"name": "V", "type": "i4", "vals": [val]}]}]})
+            want.append(val)
+        ops.append({"op": "repl_sync", "x": {"refs": True}})
+        ops.append({"op": "repl_cmp", "x": {"keys": [c.keyF]}})
+        for who in ("replica", "master"):
+            ops.append({"op": "repl_use", "x": {"who": who}})
+            ops.append({"op": "destroy", "key": c.keyF})
+        ops.insert(0, {"op": "repl_use", "x": {"who": "master"}})
+        cases.append({"id": "lag%d" % ln, "ops": ops})
+        lag_meta.append((ln, c, ngr))
     vlib.log("[C25] %d histories concretised after %.0fs, replaying" % (len(meta), __import__("time").time() - res.t0))
     obs = vlib.run_cases(binary, cases, timeout=1500 if quick else 7000)
+    for ln, c, ngr in lag_meta:
+        o = obs.get(json.dumps("lag%d" % ln))
+        replay = {"check": "repl.lagging_replica", "key": c.keyF, "groups": ngr, "seed": vlib.seed()}
+        if o is None or (isinstance(o, dict) and "died" in o):
+            res.violation("master or replica died in the lagging-replica scenario: %s" % str(o)[-300:], replay)
+            continue
+        wr = o[1:1 + ngr]
+        if any(x.get("err") or x.get("panic") for x in wr):
+            raise Undecided("a master write of the lagging-replica scenario failed: %s" % [x for x in wr if x.get("err") or x.get("panic")][:1])
+        sy, cm = o[1 + ngr], o[2 + ngr]
+        if sy.get("driver_error") or cm.get("driver_error"):
+            raise Undecided("driver error in the lagging-replica scenario: %s" % str(sy)[:200])
+        m = rows_of(cm["master"][c.keyF], c.keyF)
+        r = rows_of(cm["replica"][c.keyF], c.keyF)
+        res.cov["traces_validated_against_impl"] += 1
+        if [e for e in sy.get("replay", []) if e]:
+            res.violation("lagging replica: replaying the %d queued transaction groups failed on the replica: %s" % (ngr, [e for e in sy["replay"] if e][:2]), replay)
+        elif m != r:
+            res.violation("lagging replica (%d transaction groups flushed by the master before the replica took the first one): the fixed-length bucket %s "
+                          "holds %s on the master and %s on the replica" % (ngr, c.keyF, str(m)[:300], str(r)[:300]), replay)
+    res.cov["lagging_replica_histories"] = len(lag_meta)
     shutil.rmtree(mroot, ignore_errors=True)
     shutil.rmtree(rroot, ignore_errors=True)
     vlib.log("[C25] replay done after %.0fs, comparing" % (__import__("time").time() - res.t0))
